@@ -28,4 +28,5 @@ func emitRest(dir string, t *Tables) {
 	emitSchema(dir, thePkg, theRepo)
 	emitRules(dir, t)
 	emitCp037(dir)
+	emitAPI(dir, theRepo)
 }
